@@ -300,7 +300,7 @@ func (sc *rbScn) toCase() *rbCase {
 		c.streams = append(c.streams, v)
 	}
 	expressible, upstream := rbDeriveViews(c)
-	c.pace = sc.paceOverride || rbPaceSafe(c)
+	c.pace = (sc.paceOverride && sc.faults <= 1) || rbPaceSafe(c)
 	switch {
 	case sc.closeAt >= 0 || !expressible || upstream || !rbTame(c) || !c.pace:
 		c.cmp = "robust"
